@@ -20,6 +20,7 @@ import ProphyModel.Files
 import ProphyModel.FilesL
 import ProphyModel.FilesW
 import ProphyModel.CppLit
+import ProphyModel.NameScan
 import ProphyModel.Patch
 import ProphyModel.Accept
 import ProphyModel.WF
@@ -408,6 +409,13 @@ def handle (st : DState) (j : Json) : Except String (DState × Json) := do
       ("read", optInt (CppLit.cppRead (CppLit.toLiteral cs))),
       ("lone", optInt (CppLit.loneValue cs)),
       ("rendered", Json.bool (CppLit.rendered cs))])
+  | "name_scan" =>
+    -- the names `check_cpp_names` sees in an expression text (ProphyModel/NameScan.lean) and the identifier tokens calc reads
+    let cs := (← getStr j "text").toList
+    let idents : Json := match Expr.lex false (cs.length + 1) cs with
+      | some ts => Json.arr ((NameScan.identsOf ts).map Json.str).toArray
+      | none => Json.null
+    pure (st, Json.mkObj [("names", Json.arr ((NameScan.scan cs).map Json.str).toArray), ("idents", idents)])
   | "calc_resolve" =>
     -- the name-resolution loop of calc (ProphyModel/Resolve.lean): vars = [[name, value]], value = int | string | null
     let vars ← (← getArr j "vars").toList.mapM (fun e => do
